@@ -218,6 +218,8 @@ def check_boot(V: Verdicts, prop, plan, run: Run, li: int, h: dict):
     if route == "construct":
         return
     boot, model = h["boot"], h["model"]
+    if h.get("crash", {}).get("real_sigkill") and h["crash"]["seam"][0] == "construct":
+        return  # really killed while booting: there is no boot outcome to judge
     C = model["committed"]
     step = h.get("step_resolved")
     src = h["src"]
